@@ -182,7 +182,7 @@ pub fn run(tier: &str) -> ! {
     let mut rep = Report::new("C15", tier);
     crate::dom::quiet_panics();
     let thorough = rep.is_thorough();
-    let max_atoms = if thorough { 4 } else { 3 };
+    let max_atoms = if thorough { 6 } else { 3 };
     let atoms: Vec<Atom> = ATOM_TEXTS
         .iter()
         .map(|t| Atom::parse(t, CaseMatching::Smart, Normalization::Smart))
@@ -268,7 +268,7 @@ pub fn run(tier: &str) -> ! {
             }
             // match_list on every sub-list of the pool (quick: lists of <= 3 items, thorough <= 4)
             if list.len() <= 2 {
-                let max_items = if thorough { 4 } else { 3 };
+                let max_items = if thorough { 5 } else { 3 };
                 let nl = count_lists(LIST_POOL.len(), max_items);
                 let mut items_i = Vec::new();
                 for (ci, (cname, cfg)) in cfgs.iter().enumerate() {
@@ -391,7 +391,7 @@ pub fn run(tier: &str) -> ! {
     rep.exhaustive = true;
     rep.bound = format!(
         "all lists of <= {max_atoms} atoms from a pool of {} x {} haystacks x 2 configurations; match_list on every list of <= {} inputs from a pool of {} for every pattern of <= 2 atoms; all {}x{} two-column patterns x all haystack pairs",
-        atoms.len(), hays.len(), if thorough { 4 } else { 3 }, LIST_POOL.len(), MULTI_TEXTS.len(), MULTI_TEXTS.len()
+        atoms.len(), hays.len(), if thorough { 5 } else { 3 }, LIST_POOL.len(), MULTI_TEXTS.len(), MULTI_TEXTS.len()
     );
     rep.rule = "complete enumeration of atom lists over the pool; non-trivial = at least two atoms and the conjunction matches".into();
     rep.extra("atom_pool", json!(ATOM_TEXTS));
